@@ -624,7 +624,13 @@ def run(chk, repo):
                        "Stream coefficient - numerator first, each from its own polynomial at its own delay - in the "
                        "order of its parameter names b<delay>/a<delay>; expected %s for %s" % (want_args, want_names), node=call)
     # zero-gain guard
-    zg = [s for s in body if isinstance(s, ast.If) and unparse(s.test) in ("self.denpoly[0] == 0", "0 == self.denpoly[0]")]
+    # (as an ``if`` of its own or as the ``elif`` of the time-varying-gain test before it)
+    top_ifs = []
+    for s_ in body:
+        while isinstance(s_, ast.If):
+            top_ifs.append(s_)
+            s_ = s_.orelse[0] if len(s_.orelse) == 1 else None
+    zg = [s for s in top_ifs if unparse(s.test) in ("self.denpoly[0] == 0", "0 == self.denpoly[0]")]
     chk.decide(len(zg) == 1 and isinstance(zg[0].body[0], ast.Raise), "C04.exec", W("LinearFilter.__call__"),
                "a[0] == 0 is rejected: " + (short(zg[0]) if zg else "<not found>"),
                why="a0 must be non-zero before dividing by it", node=call)
